@@ -1,8 +1,8 @@
 package parser
 
 import (
+	"go/token"
 	"go/types"
-	"unicode"
 
 	gonanoid "github.com/matoous/go-nanoid"
 	"github.com/reedom/convergen/pkg/logger"
@@ -78,13 +78,8 @@ func (p *Parser) findConvergenEntries() ([]*intfEntry, error) {
 	return entries, nil
 }
 
-// isValidIdentifier checks if the given string is a valid identifier.
+// isValidIdentifier checks if the given string can name a variable: a Go identifier
+// (the underscore counts as a letter) other than a keyword or the blank identifier.
 func isValidIdentifier(id string) bool {
-	for i, r := range id {
-		if !unicode.IsLetter(r) &&
-			!(0 < i && unicode.IsDigit(r)) {
-			return false
-		}
-	}
-	return id != ""
+	return token.IsIdentifier(id) && id != "_"
 }
